@@ -90,6 +90,9 @@ pub fn plan(tier: &str, seed: u64) -> Vec<Batch> {
         let mut u1 = UniCfg::e();
         u1.psym = Some(1);
         v.push(Batch { check: "C15".into(), phase: "swap".into(), uni: u1.clone(), seed, lo: 0, hi: 4, fresh: false, tier: tier.into(), extra: Value::Null });
+        // a link in one directory whose (absolute) body starts with a link in another directory with
+        // other mode bits / owner: every link is judged in the directory that holds *it*
+        v.push(Batch { check: "C15".into(), phase: "chained".into(), uni: u1.clone(), seed, lo: 0, hi: chained_cells().len() as u64, fresh: false, tier: tier.into(), extra: Value::Null });
         let total = 2 * CF_MAX_STEP;
         let stride = if tier == "thorough" { 1 } else { 2 };
         let mut lo = 0;
@@ -200,6 +203,70 @@ fn run_first_use(u: &mut Universe, b: &Batch, idx: u64, st: &mut Stats) {
 }
 
 pub const CF_MAX_STEP: u64 = 240;
+
+/// (mode of the root R, mode of D = R/d, owner of l2 in R, absolute body for l1?, trailing?, C facade?)
+pub fn chained_cells() -> Vec<(u32, u32, u32, bool, bool, bool)> {
+    let mut v = Vec::new();
+    for (rmode, dmode) in [(0o1777u32, 0o755u32), (0o755, 0o1777), (0o1777, 0o1777), (0o755, 0o755), (0o777, 0o1777), (0o1777, 0o777)] {
+        for l2_owner in [1000u32, 1001, 0] {
+            for abs in [true, false] {
+                for trailing in [true, false] {
+                    for c in [false, true] {
+                        v.push((rmode, dmode, l2_owner, abs, trailing, c));
+                    }
+                }
+            }
+        }
+    }
+    v
+}
+
+fn run_chained(u: &mut Universe, b: &Batch, idx: u64, st: &mut Stats) -> bool {
+    let (rmode, dmode, l2_owner, abs, trailing, c) = chained_cells()[idx as usize];
+    let caller = 1000u32;
+    let mut w = WorldSpec::default();
+    w.push(Entry::dir("root").mode(rmode).own(0, 0));
+    w.push(Entry::dir("root/tgt").mode(0o755));
+    w.push(Entry::file("root/tgt/file", "TARGET").mode(0o644));
+    w.push(Entry::link("root/l2", "tgt").own(l2_owner, l2_owner));
+    w.push(Entry::dir("root/d").mode(dmode).own(0, 0));
+    // l1 is the caller's own link: always allowed where it sits
+    w.push(Entry::link("root/d/l1", if abs { "/l2" } else { "../l2" }).own(caller, caller));
+    let mut case = Case::new("C15", "chained", b.uni.clone());
+    case.world = Some(w);
+    let mut o = OpSpec::new(Op::Resolve { path: if trailing { "d/l1".into() } else { "d/l1/file".into() }, nofollow: false });
+    if c {
+        o = o.c();
+    }
+    case.jobs = vec![vec![OpSpec::new(Op::SetEuid { uid: caller }), o, OpSpec::new(Op::SetEuid { uid: 0 })]];
+    case.extra = json!({"root_mode": format!("{rmode:o}"), "dir_mode": format!("{dmode:o}"), "dir_uid": 0, "link_uid": l2_owner, "caller": caller, "position": "chained", "l1_body": if abs { "/l2" } else { "../l2" }});
+    let out = run_case(u, &case, &mut crate::sup::NoHooks, false);
+    if let Some(e) = &out.harness_error {
+        st.harness_errors.push(format!("chained {idx}: {e}"));
+        return false;
+    }
+    st.evaluations += 1;
+    st.merge_runout(&out);
+    st.nontrivial.insert(case.hash());
+    // l1 (caller's own) is always allowed; l2 is judged in the root directory R
+    let l2_cell = Cell { dir_mode: rmode, dir_uid: 0, link_uid: l2_owner, caller, trailing, facade_c: c };
+    let allowed = kernel_rule(1, &l2_cell);
+    if let Some(r) = out.records.iter().find(|r| matches!(r.spec.op, Op::Resolve { .. })) {
+        st.count(&format!("chained.{}", if allowed { "rule_allows" } else { "rule_refuses" }), 1);
+        let bad = match &r.outcome {
+            Outcome::Fd(_) if !allowed => Some(("follows-where-kernel-refuses:chained-links", format!("l2 (owner {l2_owner}) sits in the root directory (mode {rmode:o}) and must be refused for caller {caller}; it was reached through d/l1 (d has mode {dmode:o}) and followed"))),
+            Outcome::Err { errno, .. } if allowed && *errno == libc::EACCES => Some(("refuses-where-kernel-allows:chained-links", format!("l2 (owner {l2_owner}) sits in the root directory (mode {rmode:o}) where following it is allowed; reached through d/l1 (d has mode {dmode:o}) it was refused"))),
+            Outcome::Panic(m) => Some(("panic", m.clone())),
+            Outcome::Fd(_) | Outcome::Err { .. } => None,
+            o => Some(("unexpected-outcome", format!("{o:?}"))),
+        };
+        if let Some((clause, detail)) = bad {
+            let v = mk_violation(&case, &out, "C15", clause, "resolve", detail);
+            st.violation(&v);
+        }
+    }
+    !u.poisoned
+}
 
 fn swap_world() -> WorldSpec {
     let mut w = WorldSpec::default();
@@ -356,6 +423,19 @@ pub fn run(u: &mut Universe, b: &Batch, st: &mut Stats) {
         }
         return;
     }
+    if b.phase == "chained" {
+        if let Err(e) = warm_up(u) {
+            st.harness_errors.push(format!("warm-up: {e}"));
+            return;
+        }
+        for idx in b.lo..b.hi {
+            coord::progress(idx);
+            if !run_chained(u, b, idx, st) {
+                return;
+            }
+        }
+        return;
+    }
     if b.phase == "swap" {
         if let Err(e) = warm_up(u) {
             st.harness_errors.push(format!("warm-up: {e}"));
@@ -461,7 +541,7 @@ pub fn finalise(tier: &str, seed: u64, res: coord::CheckResult) -> i32 {
         tier,
         seed,
         "fault_enumeration",
-        "a finite matrix enumerated completely: directory mode {plain, sticky, world-writable, sticky+world-writable} x directory owner x link owner x caller uid (each from {0,1000,1001}; the caller thread switches its effective uid with a raw per-thread setresuid) x link position {trailing, intermediate} x facade x sysctl value {0,1} substituted at the seam in an E universe (one universe per value, since the library caches it per process); oracle: a transcription of may_follow_link() from fs/namei.c; the K universe runs the same cells against the machine's real sysctl; first-use-fault: in a fresh process (sysctl=1) one errno from {EMFILE, ENOMEM, EIO, EACCES} is injected at every system call of the *first* lookup - the one during which the library reads and caches the sysctl - for a refused and an allowed cell, with the sysctl on and off, and two fault-free lookups follow: a refused link is never followed and the fault-free lookups obey the rule exactly (quick: every second placement; thorough: all); swap: the link (refused for the caller) is exchanged with the caller's own link at every window of the lookup (and back one window later): the refused link's target is never returned; first-use-race: two threads of a fresh process run the first lookup, one switch from thread 0 to thread 1 at every step; distinct = every cell is a distinct configuration",
+        "a finite matrix enumerated completely: directory mode {plain, sticky, world-writable, sticky+world-writable} x directory owner x link owner x caller uid (each from {0,1000,1001}; the caller thread switches its effective uid with a raw per-thread setresuid) x link position {trailing, intermediate} x facade x sysctl value {0,1} substituted at the seam in an E universe (one universe per value, since the library caches it per process); oracle: a transcription of may_follow_link() from fs/namei.c; the K universe runs the same cells against the machine's real sysctl; first-use-fault: in a fresh process (sysctl=1) one errno from {EMFILE, ENOMEM, EIO, EACCES} is injected at every system call of the *first* lookup - the one during which the library reads and caches the sysctl - for a refused and an allowed cell, with the sysctl on and off, and two fault-free lookups follow: a refused link is never followed and the fault-free lookups obey the rule exactly (quick: every second placement; thorough: all); chained: a link (the caller's own) in directory D whose relative or absolute body starts with a second link in the root directory R, all combinations of mode bits of R and D and owners of the second link - each link is judged where it sits; swap: the link (refused for the caller) is exchanged with the caller's own link at every window of the lookup (and back one window later): the refused link's target is never returned; first-use-race: two threads of a fresh process run the first lookup, one switch from thread 0 to thread 1 at every step; distinct = every cell is a distinct configuration",
         res,
         extra,
         vec!["the oracle is a five-line transcription of the kernel rule; the real kernel enforces it only when this machine's fs.protected_symlinks is 1 (recorded under machine_sysctl)".into()],
